@@ -43,6 +43,11 @@ fn corpus() -> Vec<(Vec<&'static str>, Vec<&'static str>, Vec<&'static str>, Vec
         (vec!["a > e / _#"], vec!["ła.ña", "ɬa.ɲa", "¢a t͡sa", "t͡sa ¢a"], vec![], vec![]),
         (vec!["V > [+nasal] / _#"], vec!["'ka:", "ˈkaː", "ka:", "ka;"], vec![], vec![]),
         (vec!["t > d"], vec!["ta", "ta", "ta51", "ˈta"], vec![], vec![]),
+        // rules whose matching binds state (alphas, variables) in a non-final input element, and words that END in the middle of such a
+        // match: a binding that survives into the next word makes the answer depend on the neighbours and on their order
+        (vec!["[-son, αvoice] [-son, -αvoice] > &"], vec!["at", "dka", "ad", "tga"], vec![], vec![]),
+        (vec!["C=1 V 1 > [+long]", "[+cons, αvoice] [+cons, αvoice] > &"], vec!["sab", "tga", "pad", "dka"], vec![], vec![]),
+        (vec!["V=1 C 1 > * / _#"], vec!["tat", "ata", "ita", "tata"], vec![], vec![]),
         // calls that fail: the error value and the message shown for it (with its "did you mean" hint and caret line) are results too
         (vec!["[+voic] > [-voice]"], vec!["pa"], vec![], vec![]),
         (vec!["a > e", "[+labiodentall] > [+voice] / _#"], vec!["pa"], vec![], vec![]),
